@@ -200,6 +200,15 @@ def resolved_under_root(c, reported=None):
     return z3.Implies(chroot_set(c), under_root(c, local, reported))
 
 
+def realpath_arg_is_mapped(c):
+    maps = c.calls('self.map_path')
+    conj = []
+    for k in c.calls():
+        if k['key'] == 'os.path.realpath':
+            conj.append(z3.Or([k['args'][0].z == q['ret'].z for q in maps]) if maps else z3.BoolVal(False))
+    return z3.And(conj) if conj else z3.BoolVal(True)
+
+
 SERVER_OPS = dict(SERVER, SysModule={'platform': 'str'})
 SERVER_STUBS = {'self.map_path': contract_stub(lambda: map_path_callee),
                 'self.reverse_map_path': contract_stub(lambda: reverse_map_path_callee),
@@ -212,6 +221,8 @@ realpath = Spec(
     'C13', 'sftp', 'SFTPServer.realpath', self_class='SFTPServer', params=dict(path='bytes'), classes=SERVER_OPS,
     stubs=SERVER_STUBS, returns='bytes', modifies=[],
     ensures=[('reported-path-is-under-root', lambda c: resolved_under_root(c, c.result))],
+    # what is resolved (lstat / readlink of every component) is the mapped path, never the client's own string
+    always=[('resolves-only-the-mapped-path', realpath_arg_is_mapped)],
     raises={'SFTPNoSuchFile': lambda c: resolved_under_root(c)},
     trusted=P.TRUSTED)
 realpath.no_replay = True      # os.path.realpath consults the real file system
@@ -566,8 +577,14 @@ def new_obj_stub(cls):
 
 def copier_stub(cx):
     """_SFTPFileCopier(block_size, max_requests, total, sparse, srcfs, dstfs, srcpath, dstpath, handler): the
-    object that (in run()) opens dstpath for writing on dstfs"""
+    object that (in run()) opens dstpath for writing on dstfs - which is verified, not assumed: __init__ stores the
+    arguments unchanged and run() opens exactly (_srcpath, 'rb') on _srcfs and (_dstpath, 'wb') on _dstfs; those are
+    C12's contracts of the copier, re-registered under C13 below"""
     cx.require('file-copy-path-is-the-destination', cx.args[7].z == dest_of(cx))
+    env = cx.ex.entry_state.env
+    cx.require('file-copy-goes-from-source-fs-to-destination-fs',
+               z3.BoolVal(isinstance(cx.args[4], VRef) and isinstance(cx.args[5], VRef) and
+                          cx.args[4].addr == env['srcfs'].addr and cx.args[5].addr == env['dstfs'].addr))
     return [Out(ret=cx.ex.new_object(cx.st, 'Copier', 'copier'), event=('copy_file', tuple(cx.args)))]
 
 
@@ -588,6 +605,22 @@ def not_a_link_evidence(cx, p):
     alts = [z3.And(k['args'][0].z == p, z3.Not(k['ret'].z)) for k in cx.st.calls[last + 1:]
             if k['key'] == 'dstfs.islink' and k.get('exc') is None and isinstance(k.get('ret'), VBool)]
     return z3.Or(alts) if alts else z3.BoolVal(False)
+
+
+def copy_setstat_stub(cx):
+    """dstfs.setstat(dstpath, attrs, follow_symlinks=...) in _copy: on the destination of this activation, and - if
+    this activation has just created that destination as a symbolic link (with a target text chosen by the remote
+    side) - WITHOUT following it: chmod / utime must never be applied through a link the transfer created"""
+    cx.require('setstat-path-is-the-destination', cx.args[0].z == dest_of(cx))
+    made_link = any(k['key'] == 'dstfs.symlink' and k.get('exc') is None for k in cx.st.calls)
+    if made_link:
+        fl = cx.kwargs.get('follow_symlinks')
+        cx.require('setstat-does-not-follow-the-link-just-created',
+                   z3.Not(cx.ex.truthy(cx.st, fl)) if fl is not None else z3.BoolVal(False))
+    return [Out(event=('setstat', tuple(cx.args)))] + [Out(exc=VExc(e)) for e in IOERR + ('SFTPOpUnsupported',)]
+
+
+copy_setstat_stub.modifies = ()
 
 
 def nested_copy_stub(cx):
@@ -621,7 +654,7 @@ copy = Spec(
         'dstfs.islink': may_raise(ret('bool', 'islink'), *IOERR),      # lstat-style test: does not follow links
         'dstfs.mkdir': touches('mkdir', 0, exact=True),
         'dstfs.symlink': touches('symlink', 1, exact=True),
-        'dstfs.setstat': touches('setstat', 0, exact=True, raises=IOERR + ('SFTPOpUnsupported',)),
+        'dstfs.setstat': copy_setstat_stub,
         '_SFTPFileCopier': copier_stub, '_SFTPFileCopier().run': may_raise(noop(), *IOERR),
         'self._copy': nested_copy_stub,
     },
@@ -948,6 +981,111 @@ begin_copy = Spec(
 begin_copy.no_replay = True
 
 
+# The two ends of the download chain.
+# (1) _SFTPFileCopier: C12 verifies that __init__ stores its arguments unchanged and that run() opens exactly
+#     (_srcpath, 'rb') on _srcfs and (_dstpath, 'wb') on _dstfs (pre-at-call obligations of its open stubs).  The same
+#     Spec objects are run under C13, so that a copier writing anywhere but the destination it was constructed with
+#     fails THIS property too.
+import copy as _copy_mod
+from contracts import c12 as _c12
+for _sp in (_c12.copier_init, _c12.copier_run, _c12.copier_run_same):
+    _cp = _copy_mod.copy(_sp)
+    _cp.prop = 'C13'
+    Spec.registry.append(_cp)
+
+# (2) LocalFS, the destination file system of a download: every method hands exactly the path it was given (and the
+#     follow_symlinks flag it was given) to the operating system.
+
+
+def os_event(name, ret_type='none', raises=('OSError',)):
+    def stub(cx):
+        r = cx.fresh(ret_type, name) if ret_type != 'none' else VNone
+        return [Out(ret=r, event=(name, (tuple(cx.args), dict(cx.kwargs))))] + [Out(exc=VExc(e)) for e in raises]
+    stub.modifies = ()
+    return stub
+
+
+def one_os_call(c, name, *paths, **kw):
+    """exactly one call of `name` on this path, its leading arguments are `paths`, keyword arguments as given"""
+    evs = c.events(name)
+    if len(evs) != 1:
+        return z3.BoolVal(False)
+    args, kwargs = evs[0][1]
+    conj = [z3.BoolVal(len(args) >= len(paths))]
+    for a, pth in zip(args, paths):
+        conj.append(c.eq(a, pth))
+    for k, v in kw.items():
+        conj.append(c.eq(kwargs[k], v) if k in kwargs else z3.BoolVal(False))
+    return z3.And(conj)
+
+
+LOCALFS = {'LocalFS': {}, 'SFTPAttrs': ATTRS, 'PyFile': {}, 'LocalFile': {}}
+
+
+def _localfs(method, params, stubs, post, returns=None, raises=None):
+    sp = Spec('C13', 'sftp', 'LocalFS.' + method, self_class='LocalFS', params=params, classes=LOCALFS,
+              stubs=dict({'_to_local_path': identity_stub, '_from_local_path': identity_stub}, **stubs),
+              returns=returns, modifies=[], ensures=[post], raises=raises or {'OSError': True}, trusted=P.TRUSTED)
+    sp.no_replay = True          # would touch the real file system
+    return sp
+
+
+localfs_mkdir = _localfs('mkdir', dict(path='bytes'), {'os.mkdir': os_event('os.mkdir')},
+                         ('creates-exactly-the-path-given', lambda c: one_os_call(c, 'os.mkdir', c.argv('path'))))
+localfs_isdir = _localfs('isdir', dict(path='bytes'), {'os.path.isdir': os_event('os.path.isdir', 'bool')},
+                         ('tests-exactly-the-path-given', lambda c: one_os_call(c, 'os.path.isdir', c.argv('path'))),
+                         returns='bool')
+localfs_exists = _localfs('exists', dict(path='bytes'), {'os.path.exists': os_event('os.path.exists', 'bool')},
+                          ('tests-exactly-the-path-given', lambda c: one_os_call(c, 'os.path.exists', c.argv('path'))),
+                          returns='bool')
+localfs_symlink = _localfs('symlink', dict(oldpath='bytes', newpath='bytes'), {'os.symlink': os_event('os.symlink')},
+                           ('link-created-at-newpath-with-text-oldpath',
+                            lambda c: one_os_call(c, 'os.symlink', c.argv('oldpath'), c.argv('newpath'))))
+localfs_setstat = _localfs('setstat', dict(path='bytes', attrs='obj:SFTPAttrs', follow_symlinks='bool'),
+                           {'_setstat': os_event('_setstat', raises=('OSError', 'NotImplementedError'))},
+                           ('sets-attributes-of-exactly-the-path-given-with-the-flag-given',
+                            lambda c: one_os_call(c, '_setstat', c.argv('path'),
+                                                  follow_symlinks=c.argv('follow_symlinks'))),
+                           raises={'OSError': True, 'NotImplementedError': True})
+localfs_open = _localfs('open', dict(path='bytes', mode='str', block_size='int'),
+                        {'open': os_event('open', 'obj:PyFile'), 'make_sparse_file': noop(),
+                         'LocalFile': os_event('LocalFile', 'obj:LocalFile', raises=())},
+                        ('opens-exactly-the-path-given-in-the-mode-given',
+                         lambda c: one_os_call(c, 'open', c.argv('path'), c.argv('mode'))),
+                        raises={'OSError': True, 'IndexError': True})
+
+# _setstat (used by LocalFS.setstat and the server's setstat operations): every system call it makes is on the path it
+# was given, and stat / chown / chmod / utime get the caller's follow_symlinks unchanged
+SETSTAT_ATTRS = dict(ATTRS, uid='opt[int]', gid='opt[int]', owner='opt[opaque:Name]', group='opt[opaque:Name]')
+
+
+def setstat_post(c):
+    conj = []
+    for name in ('os.truncate', 'os.stat', 'os.chown', 'os.chmod', 'os.utime'):
+        for _n, (args, kwargs) in c.events(name):
+            conj.append(z3.BoolVal(len(args) >= 1))
+            if args:
+                conj.append(c.eq(args[0], c.argv('path')))
+            if name != 'os.truncate':
+                conj.append(c.eq(kwargs['follow_symlinks'], c.argv('follow_symlinks'))
+                            if 'follow_symlinks' in kwargs else z3.BoolVal(False))
+    return z3.And(conj) if conj else z3.BoolVal(True)
+
+
+setstat_fn = Spec(
+    'C13', 'sftp', '_setstat', params=dict(path='bytes', attrs='obj:SFTPAttrs', follow_symlinks='bool'),
+    classes={'SFTPAttrs': SETSTAT_ATTRS, 'StatResult': {'st_atime_ns': 'int', 'st_mtime_ns': 'int'}},
+    stubs={'os.truncate': os_event('os.truncate'), 'os.stat': os_event('os.stat', 'obj:StatResult'),
+           'os.chown': os_event('os.chown', raises=('OSError', 'NotImplementedError', 'AttributeError')),
+           'os.chmod': os_event('os.chmod', raises=('OSError', 'NotImplementedError')),
+           'os.utime': os_event('os.utime', raises=('OSError', 'NotImplementedError')),
+           '_lookup_uid': ret('opt[int]', 'uid'), '_lookup_gid': ret('opt[int]', 'gid'),
+           '_tuple_to_nsec': ret('int', 'nsec'), 'stat.S_IMODE': ret('int', 'mode')},
+    always=[('every-system-call-is-on-the-given-path-with-the-given-follow-flag', setstat_post)],
+    raises={'OSError': True, 'NotImplementedError': True}, trusted=P.TRUSTED)
+setstat_fn.no_replay = True
+
+
 # ----------------------------------------------------------------------------------------------- extra checks
 
 # (b) syntactic dominance, fail closed: inside SFTPServer a value derived from a client-supplied path may only go
@@ -981,8 +1119,10 @@ RECORDS = {'SFTPName'}                       # plain data records returned to th
 LEGACY_OPS = {'listdir'}                     # pre-2.x override hook used by scandir: a server operation a subclass
                                              # supplies (it receives the client path and has to map it itself)
 NOT_SERVER_OPS = {'__init__', 'map_path', 'reverse_map_path'}
+ADAPTER_PURE = {'SFTPServerFile', 'SFTPAttrs', 'inspect.isawaitable', '_mode_to_pflags'}   # records / predicates
 NOT_PATH_PARAMS = {('write', 'data')}        # file content, handed to the already open file object
 TWO_PATHS = {'os.rename', 'os.replace', 'os.link', 'os.renames'}
+REALPATH_EXCEPTIONS = {('readlink', 'path'), ('symlink', 'abspath2')}
 T_, M_, C_ = 'TAINTED', 'MAPPED', 'CLEAN'
 
 
@@ -1002,15 +1142,31 @@ def _join_cls(a, b):
     return M_ if a == b == M_ else C_
 
 
-def scan_server_fs_calls():
-    """-> (sinks [(method, line, call text, ok)], problems [str])"""
+def scan_server_fs_calls(cls_name='SFTPServer'):
+    """-> (sinks [(method, line, call text, ok)], problems [str]).
+    cls_name='SFTPServer': the server itself.  cls_name in ('SFTPServerFS', 'SFTPServerFile'): the adapters that put
+    an SFTPServer behind the SCP server (scp against a chroot-ed server); the same two rules apply, with
+    `self._server.<operation>` and the class's own methods as the only places a client path may go (there is no
+    map_path here, so any os.* / open / pathlib use of a path fails)."""
     import ast
     from pyvc import extract
     mod = extract.get_module('sftp')
-    cls = mod.classes['SFTPServer']
-    server_methods = {n.name for n in cls.body if isinstance(n, (ast.FunctionDef, ast.AsyncFunctionDef))}
+    cls = mod.classes[cls_name]
+    server_cls = mod.classes['SFTPServer']
+    server_methods = {n.name for n in server_cls.body if isinstance(n, (ast.FunctionDef, ast.AsyncFunctionDef))}
     server_methods |= LEGACY_OPS
+    own_methods = {n.name for n in cls.body if isinstance(n, (ast.FunctionDef, ast.AsyncFunctionDef))}
+    adapter = cls_name != 'SFTPServer'
     sinks, problems = [], []
+
+    def server_op(k):
+        """the callee is an SFTPServer operation (itself subject to the scan of SFTPServer)"""
+        if k is None:
+            return False
+        if adapter:
+            return (k.startswith('self._server.') and k.count('.') == 2 and k[13:] in server_methods) or \
+                   (k.startswith('self.') and k.count('.') == 1 and k[5:] in own_methods)
+        return k.startswith('self.') and k.count('.') == 1 and k[5:] in server_methods
 
     def klass(e, env):
         """TAINTED / MAPPED / CLEAN for expression e"""
@@ -1024,7 +1180,7 @@ def scan_server_fs_calls():
                 return klass(e.args[0], env)
             if k == 'cast' and len(e.args) == 2:
                 return klass(e.args[1], env)
-            if k is not None and k.startswith('self.') and k.count('.') == 1 and k[5:] in server_methods:
+            if server_op(k):
                 return C_       # what another server operation returns comes from the file system, not the client
         if isinstance(e, ast.Lambda):
             return C_
@@ -1064,20 +1220,33 @@ def scan_server_fs_calls():
             ok1 = (k in ('self.map_path', 'self.reverse_map_path') or k in WRAPPERS or k in TEXT_FUNCS or k in RECORDS
                    or is_exception(k)
                    or (k is not None and (k.startswith('self.logger.') or k.startswith('logger.')))
-                   or (k is not None and k.startswith('self.') and k.count('.') == 1 and k[5:] in server_methods)
+                   or server_op(k) or (adapter and k in ADAPTER_PURE)
                    or (recv_tainted and not tainted and isinstance(node.func, ast.Attribute)
                        and node.func.attr in BYTES_METHODS))
             if not ok1:
-                problems.append(f'SFTPServer.{meth} line {node.lineno}: {text} - receives a value derived from a '
+                problems.append(f'{cls_name}.{meth} line {node.lineno}: {text} - receives a value derived from a '
                                 f'client-supplied path that did not go through self.map_path(...)')
         # ---- rule 2: known file-system entry points need MAPPED paths
+        if k == 'os.path.realpath':
+            # resolves (lstat / readlink) every component of its argument: only a MAPPED path may be resolved.  Listed
+            # exceptions: readlink resolves the text stored in a link it has just read through a mapped path (not a
+            # client string); symlink resolves `abspath2` = the mapped link directory joined with the client's
+            # relative target, which is the comparison its contract is about.
+            a0 = node.args[0] if node.args else None
+            ok = a0 is not None and (klass(a0, env) == M_ or (meth, ast.unparse(a0)) in REALPATH_EXCEPTIONS and
+                                     (klass(a0, env) != T_ or meth == 'symlink'))
+            sinks.append((meth, node.lineno, text, ok))
+            if not ok:
+                problems.append(f'{cls_name}.{meth} line {node.lineno}: {text} - os.path.realpath of a path that did '
+                                f'not come from self.map_path(...)')
+            return
         if k is None or not (k in ('open', '_setstat') or (k.startswith('os.') and k[3:] not in PURE_OS)):
             return
         pa = path_args(k, node)
         ok = bool(pa) and all(klass(a, env) == M_ or handle(a, params) for a in pa)
         sinks.append((meth, node.lineno, text, ok))
         if not ok:
-            problems.append(f'SFTPServer.{meth} line {node.lineno}: {text} - a path argument does not come from '
+            problems.append(f'{cls_name}.{meth} line {node.lineno}: {text} - a path argument does not come from '
                             f'self.map_path(...)')
 
     def visit(e, env, meth, params):
@@ -1167,7 +1336,7 @@ def scan_server_fs_calls():
                 run(st.orelse, env, meth, params)
                 run(st.finalbody, env, meth, params)
             elif isinstance(st, (ast.FunctionDef, ast.AsyncFunctionDef, ast.ClassDef)):
-                problems.append(f'SFTPServer.{meth}: nested definition {st.name} is not analysed')
+                problems.append(f'{cls_name}.{meth}: nested definition {st.name} is not analysed')
             else:
                 for c in ast.iter_child_nodes(st):
                     if isinstance(c, ast.expr):
@@ -1178,7 +1347,7 @@ def scan_server_fs_calls():
             params = {a.arg: (ast.unparse(a.annotation) if a.annotation is not None else None)
                       for a in node.args.args + node.args.kwonlyargs}
             if node.args.vararg or node.args.kwarg:
-                problems.append(f'SFTPServer.{node.name}: *args / **kwargs parameters are not analysed')
+                problems.append(f'{cls_name}.{node.name}: *args / **kwargs parameters are not analysed')
             env = {}
             for name, ann in params.items():
                 is_path = ann is not None and 'bytes' in ann and (node.name, name) not in NOT_PATH_PARAMS
@@ -1324,6 +1493,139 @@ def validate_split(maxlen):
     return dict(res, name=name)
 
 
+def scan_scp_handler():
+    """the SCP server always works through the chroot-aware adapter: _scp_handler builds `fs = SFTPServerFS(sftp_server)`
+    (the only binding of fs) and hands exactly that fs to _SCPSource / _SCPSink"""
+    import ast
+    from pyvc import extract
+    fn = extract.get_module('scp').get_function('_scp_handler')
+    problems, built = [], 0
+    for n in ast.walk(fn):
+        if isinstance(n, (ast.Assign, ast.AnnAssign, ast.AugAssign)):
+            tgts = n.targets if isinstance(n, ast.Assign) else [n.target]
+            for t in tgts:
+                if any(isinstance(x, ast.Name) and x.id == 'fs' for x in ast.walk(t)):
+                    if not (isinstance(n, ast.Assign) and ast.unparse(n.value) == 'SFTPServerFS(sftp_server)'):
+                        problems.append(f'line {n.lineno}: {ast.unparse(n)[:70]}')
+        if isinstance(n, ast.Call) and _dotted(n.func) in ('_SCPSource', '_SCPSink'):
+            built += 1
+            if not (n.args and isinstance(n.args[0], ast.Name) and n.args[0].id == 'fs'):
+                problems.append(f'line {n.lineno}: {ast.unparse(n)[:70]} - not built on the SFTPServerFS adapter')
+        if isinstance(n, ast.Name) and n.id in ('local_fs', 'LocalFS'):
+            problems.append(f'line {n.lineno}: local file system used in the SCP server')
+    if built != 2:
+        problems.append(f'{built} handler constructions found, 2 expected')
+    return {'name': 'C13.scp._scp_handler#scan(scp-server-goes-through-the-chroot-adapter)',
+            'verdict': 'refuted' if problems else 'proved', 'backend': 'AST scan', 'detail': problems[:10],
+            'replayed': False}
+
+
+HANDLER_ROOTS = {'self', 'packet', 'super', 'inspect', 'posixpath'}
+HANDLER_NAMES = {'Boolean', 'String', 'UInt16', 'UInt32', 'UInt64', 'SFTPAttrs', 'SFTPLimits', 'SFTPName',
+                 'SFTPRanges', 'any', 'cast', 'hasattr', 'isinstance', 'len', 'list', 'min', 'max', 'str', 'bytes',
+                 'int', 'plural', 'hide_empty', 'handler',
+                 '_request_ranges'}       # works on an already open file object (fileno), not on a path
+HANDLER_OS = {'os.linesep.encode', 'os.sysconf'}
+
+
+def scan_server_handler():
+    """SFTPServerHandler (packet decoding, _process_* methods) reaches the file system only through
+    self._server.<operation>: fail-closed list of what may be called at all inside the class - methods of self / the
+    packet / local values, packet encoders, records and exceptions, a few builtins; no os.* (but linesep / sysconf),
+    open, pathlib, shutil, _setstat, _to_local_path, ..."""
+    import ast
+    from pyvc import extract
+    mod = extract.get_module('sftp')
+    cls = mod.classes['SFTPServerHandler']
+    imported = {(a.asname or a.name).split('.')[0] for n in mod.tree.body if isinstance(n, ast.Import)
+                for a in n.names}
+    problems, n_calls = [], 0
+    for meth in cls.body:
+        if not isinstance(meth, (ast.FunctionDef, ast.AsyncFunctionDef)):
+            continue
+        local = {a.arg for a in meth.args.args + meth.args.kwonlyargs}
+        for n in ast.walk(meth):
+            if isinstance(n, ast.Name) and isinstance(n.ctx, ast.Store):
+                local.add(n.id)
+            elif isinstance(n, ast.ExceptHandler) and n.name:
+                local.add(n.name)
+        for n in ast.walk(meth):
+            if not isinstance(n, ast.Call):
+                continue
+            n_calls += 1
+            k = _dotted(n.func)
+            if k is None:
+                continue                      # call on a computed value (e.g. a method of a call result)
+            root = k.split('.')[0]
+            ok = (root in HANDLER_ROOTS or k in HANDLER_OS or
+                  ('.' not in k and (k in HANDLER_NAMES or extract.is_subclass(k, 'BaseException'))) or
+                  ('.' in k and root in HANDLER_NAMES and root[0].isupper()) or            # SFTPAttrs.decode(...)
+                  ('.' in k and root in local and root not in imported) or
+                  k.startswith('SFTPVFSAttrs.'))
+            if root == 'self' and k.count('.') >= 2 and not k.startswith(('self._server.', 'self.logger.',
+                                                                         'self._file_handles.', 'self._dir_handles.',
+                                                                         'self._packet_handlers.', 'self._extensions.',
+                                                                         'self._writer.', 'self._reader.')):
+                ok = ok and k.split('.')[1].startswith('_')      # other private members of the handler itself
+            if not ok:
+                problems.append(f'{meth.name} line {n.lineno}: {ast.unparse(n)[:70]}')
+    return {'name': 'C13.sftp.SFTPServerHandler#scan(file-system-only-through-the-server-object)',
+            'verdict': 'refuted' if problems or not n_calls else 'proved', 'backend': 'AST scan',
+            'detail': problems[:10], 'replayed': False}
+
+
+def scan_entry_points():
+    """the caller's destination reaches the verified functions unchanged:
+    scp(): `dstpath` is rebound once, by `dstconn, dstpath, close_dst = await _parse_path(dstpath, **kwargs)`, the
+    download sink is `_SCPSink(local_fs, ...)` and is started as `sink.run(dstpath)`;
+    SFTPClient.get/mget (downloads), put/mput, copy/mcopy: one `_begin_copy(srcfs, dstfs, <sources>, <destination>,
+    ...)` call with the file systems and the method's own first two parameters in that order, never rebound;
+    _begin_copy: `dstpath` is only rebound by `dstpath = dstfs.encode(dstpath)`."""
+    import ast
+    from pyvc import extract
+    problems = []
+    fn = extract.get_module('scp').get_function('scp')
+    binds = [n for n in ast.walk(fn) if isinstance(n, ast.Name) and n.id == 'dstpath' and
+             isinstance(n.ctx, (ast.Store, ast.Del))]
+    ok_bind = [n for n in ast.walk(fn) if isinstance(n, ast.Assign) and
+               ast.unparse(n) == 'dstconn, dstpath, close_dst = await _parse_path(dstpath, **kwargs)']
+    if len(binds) != 1 or len(ok_bind) != 1:
+        problems.append(f'scp(): dstpath bound {len(binds)} times / expected parse statement found {len(ok_bind)} times')
+    runs = [n for n in ast.walk(fn) if isinstance(n, ast.Call) and _dotted(n.func) == 'sink.run']
+    if len(runs) != 1 or ast.unparse(runs[0]) != 'sink.run(dstpath)':
+        problems.append('scp(): ' + '; '.join(ast.unparse(r) for r in runs) + ' - expected exactly sink.run(dstpath)')
+    sinks = [n for n in ast.walk(fn) if isinstance(n, ast.Call) and _dotted(n.func) == '_SCPSink']
+    if len(sinks) != 1 or not (sinks[0].args and ast.unparse(sinks[0].args[0]) == 'local_fs'):
+        problems.append('scp(): the download sink is not _SCPSink(local_fs, ...)')
+    sink_binds = [n for n in ast.walk(fn) if isinstance(n, ast.Name) and n.id == 'sink' and isinstance(n.ctx, ast.Store)]
+    if len(sink_binds) != 1:
+        problems.append('scp(): `sink` bound more than once')
+    mod = extract.get_module('sftp')
+    expect = {'get': ('self', 'local_fs'), 'mget': ('self', 'local_fs'), 'put': ('local_fs', 'self'),
+              'mput': ('local_fs', 'self'), 'copy': ('self', 'self'), 'mcopy': ('self', 'self')}
+    for name, (sfs, dfs) in expect.items():
+        m = mod.get_function('SFTPClient.' + name)
+        p1, p2 = m.args.args[1].arg, m.args.args[2].arg
+        calls = [n for n in ast.walk(m) if isinstance(n, ast.Call) and _dotted(n.func) == 'self._begin_copy']
+        if len(calls) != 1 or [ast.unparse(a) for a in calls[0].args[:4]] != [sfs, dfs, p1, p2] or calls[0].keywords:
+            problems.append(f'SFTPClient.{name}: _begin_copy call is not ({sfs}, {dfs}, {p1}, {p2}, ...)')
+        for n in ast.walk(m):
+            if isinstance(n, ast.Name) and n.id in (p1, p2, 'local_fs') and isinstance(n.ctx, (ast.Store, ast.Del)):
+                problems.append(f'SFTPClient.{name}: {n.id} is rebound (line {n.lineno})')
+    bc = mod.get_function('SFTPClient._begin_copy')
+    for n in ast.walk(bc):
+        if isinstance(n, (ast.Assign, ast.AugAssign, ast.AnnAssign)) and getattr(n, 'value', None) is not None:
+            tg = n.targets if isinstance(n, ast.Assign) else [n.target]
+            if any(isinstance(x, ast.Name) and x.id == 'dstpath' for t in tg for x in ast.walk(t)):
+                if ast.unparse(n) != 'dstpath = dstfs.encode(dstpath)':
+                    problems.append(f'_begin_copy line {n.lineno}: {ast.unparse(n)[:70]}')
+        if isinstance(n, ast.Name) and n.id in ('dstfs', 'srcfs') and isinstance(n.ctx, (ast.Store, ast.Del)):
+            problems.append(f'_begin_copy line {n.lineno}: {n.id} is rebound')
+    return {'name': 'C13#scan(caller-destination-reaches-the-transfer-unchanged)',
+            'verdict': 'refuted' if problems else 'proved', 'backend': 'AST scan', 'detail': problems[:10],
+            'replayed': False}
+
+
 def extra_checks(tier, seed):
     n = 10 if tier == 'thorough' else 8
     res = P.validate_externals(maxlen=n, join_maxlen=5 if tier == 'thorough' else 4)
@@ -1332,5 +1634,12 @@ def extra_checks(tier, seed):
            'verdict': 'proved' if sinks and not problems else 'refuted', 'backend': 'AST dataflow scan',
            'detail': problems[:10], 'sinks': [f'{m}@{ln}: {txt}' for m, ln, txt, _ok in sinks], 'replayed': False}
     res.append(validate_split(8 if tier == 'thorough' else 7))
-    return {'bounded': res, 'lemmas': [lem, scan_recv_file(), scan_glob_result_list(), lemma_ends_dotdot(),
-                                      lemma_link_location()]}
+    lems = [lem]
+    for cn in ('SFTPServerFS', 'SFTPServerFile'):
+        sk, pr = scan_server_fs_calls(cn)
+        lems.append({'name': f'C13.sftp.{cn}#scan(client-paths-only-go-to-server-operations)',
+                     'verdict': 'refuted' if pr else 'proved', 'backend': 'AST dataflow scan', 'detail': pr[:10],
+                     'replayed': False})
+    lems += [scan_scp_handler(), scan_server_handler(), scan_entry_points(), scan_recv_file(),
+             scan_glob_result_list(), lemma_ends_dotdot(), lemma_link_location()]
+    return {'bounded': res, 'lemmas': lems}
